@@ -40,8 +40,17 @@ def gen_cases(chk):
         ft, st, nt = G.feat_table(feats, version), G.sill_table(langs) if langs else b'', G.name_table(names, first_is_label=(i % 6 == 0), mac_first=mac_first)
         for seq in range(4 if not big else 2):
             ops = []
+            multi = (seq == 3) or (big and seq == 1)      # several faces: unbound maps (gr_featureval_clone(NULL)) and a second face's features
             for _ in range(rng.randrange(3, 40 if thorough else 14)):
                 k = rng.random()
+                if multi and k < 0.55:
+                    fi = rng.randrange(len(feats)); mx = G.maxval(feats[fi])
+                    k2 = rng.random()
+                    if k2 < 0.3: ops.append('blank')
+                    else:
+                        v = rng.choice((0, 1, mx, min(mx + 1, 0xFFFF), min(mx + 1, 0xFFFF), mx // 2, 0xFFFF))
+                        ops.append('%s:%d:%d' % ('xset' if k2 < 0.7 else 'set', fi, v))
+                    continue
                 fi = rng.randrange(len(feats)) if not big else rng.choice((0, 1, 2, len(feats) - 1, rng.randrange(len(feats)), 127, 128, 129) )
                 fi = min(fi, len(feats) - 1)
                 mx = G.maxval(feats[fi])
@@ -118,28 +127,48 @@ def oracle(chk, c, mt, i):
     if cur != want:
         chk.violation(key + ':defaults', 'default feature values %s, the Feat table gives %s' % (cur, want), dict(case=c[:4000], got=i)); return
     state = list(want)
+    bound = 1                  # the face the map belongs to (None: an unbound map from gr_featureval_clone(NULL)); state = its values there
+    zeros = [0] * len(want)
+    seen = lambda face: state if bound == face else zeros
     pos = j + 2
     for op in mt['ops']:
         if pos >= len(tok):
             break
         t = tok[pos]
-        if op.startswith('set:'):
-            _, fi, v = op.split(':'); fi, v = int(fi), int(v)
+        if op.startswith('set:') or op.startswith('xset:'):
+            nm, fi, v = op.split(':'); fi, v = int(fi), int(v)
+            face = 1 if nm == 'set' else 2
             ok = tok[pos + 1]
             vals = [int(x) for x in tok[pos + 2].split(',')]
-            exp_ok = v <= G.maxval(feats[fi])
+            exp_ok = v <= G.maxval(feats[fi]) and bound in (None, face)
             if (ok == '1') != exp_ok:
-                chk.violation(key + ':set', 'set_feature_value(feature %d (max %d), %d) %s, expected %s' % (fi, G.maxval(feats[fi]), v, 'succeeded' if ok == '1' else 'failed', 'success' if exp_ok else 'failure'),
+                chk.violation(key + ':set', 'set_feature_value(feature %d (max %d) of face %d, %d) on a map %s: %s, expected %s' % (fi, G.maxval(feats[fi]), face, v,
+                              'not yet bound' if bound is None else 'of face %d' % bound, 'succeeded' if ok == '1' else 'failed', 'success' if exp_ok else 'failure'),
                               dict(case=c[:4000], got=i, op=op)); return
-            if exp_ok: state[fi] = v
-            if vals != state:
-                bad = [k for k in range(len(state)) if vals[k] != state[k]]
-                chk.violation(key + ':isolation', 'after %s feature(s) %s read %s, expected %s' % (op, bad[:4], [vals[k] for k in bad[:4]], [state[k] for k in bad[:4]]),
+            if exp_ok:
+                if bound is None: bound, state = face, list(zeros)
+                state[fi] = v
+            if vals != seen(1):
+                bad = [k for k in range(len(state)) if vals[k] != seen(1)[k]]
+                chk.violation(key + ':isolation', 'after %s feature(s) %s read %s, expected %s' % (op, bad[:4], [vals[k] for k in bad[:4]], [seen(1)[k] for k in bad[:4]]),
                               dict(case=c[:4000], got=i, op=op)); return
             pos += 3
+            if face == 2:
+                vals2 = [int(x) for x in tok[pos].split(',')]
+                if vals2 != seen(2):
+                    bad = [k for k in range(len(state)) if vals2[k] != seen(2)[k]]
+                    chk.violation(key + ':isolation', 'after %s feature(s) %s of the second face read %s, expected %s' % (op, bad[:4], [vals2[k] for k in bad[:4]], [seen(2)[k] for k in bad[:4]]),
+                                  dict(case=c[:4000], got=i, op=op)); return
+                pos += 1
+        elif op == 'blank':
+            bound, state = None, list(zeros)
+            vals = [int(x) for x in tok[pos + 1].split(',')]
+            if vals != zeros:
+                chk.violation(key + ':blank', 'a map from gr_featureval_clone(NULL) reads %s' % vals[:8], dict(case=c[:4000], got=i)); return
+            pos += 2
         elif op == 'clone':
             vals = [int(x) for x in tok[pos + 2].split(',')]
-            if tok[pos + 1] != 'eq' or vals != state:
+            if tok[pos + 1] != 'eq' or vals != seen(1):
                 chk.violation(key + ':clone', 'clone does not compare equal to / read like its source', dict(case=c[:4000], got=i)); return
             pos += 3
         elif op.startswith('lang:'):
@@ -152,7 +181,7 @@ def oracle(chk, c, mt, i):
             if vals != want:
                 chk.violation(key + ':lang', 'featureval_for_lang(%08x) = %s, expected defaults overridden by the Sill entry = %s' % (tag, vals, want),
                               dict(case=c[:4000], got=i, op=op)); return
-            state = list(want)
+            state = list(want); bound = 1
             pos += 2
         elif op.startswith('label:'):
             _, fi, si = op.split(':'); fi, si = int(fi), int(si)
@@ -173,7 +202,7 @@ def strip_labels(toks):
     while k < len(toks):
         if toks[k] == 'N':
             out.append('N'); k += 1
-            while k < len(toks) and toks[k] not in ('S', 'C', 'L', 'N', 'T'): k += 1
+            while k < len(toks) and toks[k] not in ('S', 'C', 'L', 'N', 'T', 'X', 'B'): k += 1
         elif toks[k] == 'T':
             break
         else:
@@ -184,7 +213,7 @@ def strip_labels(toks):
 def run(chk):
     chk.trusted += ['hand model Model/FeatModel.v of the FeatureRef constructor, applyValToFeature / getFeatureVal, readFeats, readSill, cloneFeatures',
                     'Python Feat/Sill/name generators and reference (tools/props/featgen.py) as oracle']
-    chk.assumptions += ['one face (the FeatureVal / FeatureMap compatibility test is not modelled); feature ids distinct (qsort order of duplicates is not specified)',
+    chk.assumptions += ['two faces over the same tables stand for "several faces"; feature ids distinct (qsort order of duplicates is not specified)',
                         'labels are compared by the oracle only (the name-table reader is modelled under C01)']
     chk.check_proofs()
     mexe, hexe = build(chk)
@@ -208,7 +237,7 @@ def run(chk):
             chk.tie_break('correspondence:feat', 'model %r vs implementation %r' % ((m or '')[:300], i[:300]), c[:2000])
     chk.cov.update(evaluations=len(cases), distinct_nontrivial=len(classes), disagreements_checked=ndis, distribution=dist,
                    rule='synthesised Feat (v1/v2/v3, 1-300 features, maxima straddling word boundaries, hidden features, features without settings), Sill (padded tags, '
-                        'out-of-range values, unknown ids) and name tables; random set/clone/lang/label sequences with read-back of ALL features after every step; '
+                        'out-of-range values, unknown ids) and name tables; random set/clone/lang/label sequences (one sequence in four also with unbound maps from gr_featureval_clone(NULL) and writes through a second face) with read-back of ALL features after every step; '
                         'malformed tables for loader verdict + safety; non-trivial = distinct (family, size classes, verdict)',
                    samples=[cases[0][:300], cases[len(cases) // 2][:300]], exhaustive=False)
 
